@@ -311,10 +311,14 @@ Section SameKey.
   Variable pcall : bytes -> path -> cfres.
   Notation pcompile := (pcompile root query ext fsigs fcall pcall).
 
+  Lemma needed_eq i x :
+    needed i x = negb (fqdn_is_final (v_fqdn i)) && (is_some (p_xpath (v_pub i)) || x) && negb (parent_is_array i).
+  Proof. reflexivity. Qed.
+
   Lemma needed_inner i x :
     fqdn_is_final (v_fqdn i) = false ->
     needed i x = (is_some (p_xpath (v_pub i)) || x) && negb (parent_is_array i).
-  Proof. intro H. unfold needed. rewrite H. reflexivity. Qed.
+  Proof. intro H. rewrite needed_eq, H. reflexivity. Qed.
 
   Lemma pub_of_isx d1 d2 : pub_of d1 = pub_of d2 ->
     v_pub (vd_info d1) = v_pub (vd_info d2) /\ is_some (vd_xdyn d1) = is_some (vd_xdyn d2).
